@@ -81,3 +81,22 @@ Example C16_format_unbounded_outside_the_property :
   format [115; 116; 114; 117; 99; 116; 32; 65; 32; 123; 32; 105; 110; 116; 51; 50; 32; 97]%N = PEnd /\
   read_file [115; 116; 114; 117; 99; 116; 32; 65; 32; 123; 32; 105; 110; 116; 51; 50; 32; 97]%N false = PErr.
 Proof. split; vm_compute; reflexivity. Qed.
+
+(* the conclusion of C16_schema computed on a union whose second member - after a member that spans lines - carries a comment
+   line (the construct the implementation mishandled until 4fdef8a): Format's output is the canonical text, which is the text
+   itself here, and it is read back as the same File, the comment on the second member's message *)
+Require Import Bebop.front.TyFDoc Bebop.front.TyUDoc.
+Example C16_schema_witness :
+  let A := {| ic := 65%N; itl := [] |} in let B := {| ic := 66%N; itl := [] |} in let x := {| ic := 120%N; itl := [] |} in
+  let i32 := {| ic := 105%N; itl := [110; 116; 51; 50]%N |} in
+  let one := {| xc := 49%N; xds := []; xv := 1%N |} in let two := {| xc := 50%N; xds := []; xv := 2%N |} in
+  let dl := [SFDocUnion {| ic := 85%N; itl := [] |} [([], (None, LUs one A [(LSimple i32 0, x)])); ([[32; 98]%N], (None, LUm two B []))] 0] in
+  let lay := glayout (map xel_of dl) in
+  Forall sdefn_ok dl /\ render lay [] = schema_canon dl /\
+  (exists s, format (render lay []) = POk (schema_canon dl) s) /\
+  (exists s, read_file (schema_canon dl) false = POk (schema_file dl) s) /\
+  map (fun p => match u_msg (snd p) with Some m => m_comment m | None => [] end) (flat_map un_fields (unions (schema_file dl))) = [[]; [32; 98]%N].
+Proof.
+  cbv zeta. split; [repeat constructor; cbn; intuition discriminate|]. split; [vm_compute; reflexivity|].
+  split; [eexists; vm_compute; reflexivity|]. split; [eexists; vm_compute; reflexivity|vm_compute; reflexivity].
+Qed.
